@@ -254,8 +254,8 @@ def floor_instant(inst):
     return Instant(datetime(dt.year, dt.month, dt.day))
     
 def ceil_instant(inst):
-    dt = inst.dt
-    return Instant(datetime(dt.year, dt.month, dt.day+1))
+    # Not datetime(y, m, d+1): that fails on the last day of a month.
+    return Instant(floor_instant(inst).dt + timedelta(days=1))
 
 def instant_minus_instant(i1, i2):
     return Quantity((i1.dt-i2.dt).total_seconds(), SECONDS)
